@@ -1,10 +1,10 @@
 SPECIFICATION Spec
 CONSTANTS
   P = 2
-  S = 0
-  Bug = "RangeDelLE"
-  NL = 2
-  MaxW = 2
+  S = 1
+  Bug = "none"
+  NL = 1
+  MaxW = 3
   Kinds = {1}
   MaxOps = 0
   Emit = FALSE
